@@ -90,15 +90,18 @@ func (l *logger) Fatal(v ...interface{}) {
 // Silent is used to enable and disable log silencing. Silent must be called
 // with true before it can be called with false.
 func (l *logger) Silent(enable bool) {
+	// SetOutput takes the Logrus logger's mutex, so this does not race with
+	// concurrent log calls (Silent is called from the Raft FSM goroutine
+	// while other goroutines are logging).
 	if enable {
 		l.oldOut = l.Out
-		l.Out = io.Discard
+		l.SetOutput(io.Discard)
 	} else {
 		oldOut := l.oldOut
 		if oldOut == nil {
 			panic("Must enable logger.Silent before disabling")
 		}
-		l.Out = oldOut
+		l.SetOutput(oldOut)
 	}
 }
 
